@@ -498,7 +498,7 @@ theorem sublist_insertSorted (s : KState ℚ σ) (e : EvId) (l : List EvId) : l.
     unfold insertSorted
     split
     · exact List.sublist_cons_self _ _
-    · exact ih.cons₂ x
+    · exact List.Sublist.cons_cons x ih
 
 theorem nodup_insertSorted (s : KState ℚ σ) (e : EvId) (l : List EvId) (hn : l.Nodup) (he : e ∉ l) :
     (insertSorted s e l).Nodup := by
